@@ -227,6 +227,7 @@ func TestVerifC14(t *testing.T) {
 	rep.Floor("pw_backend_errors", 5)
 	rep.Floor("totp_spacing_checked", 3)
 	rep.Floor("totp_lockout_checked", 1)
+	rep.Floor("totp_slow_guessing_checked", 1)
 	rep.Floor("totp_overlap_rounds_decided", 2) // judged, or found impossible because the tree serialises the two guesses
 	rep.Floor("totp_relogin_checked", 1)
 	rep.Floor("totp_simultaneous_rounds", 25)
@@ -422,6 +423,33 @@ func c14TOTP(t *testing.T, rep *verifReport) {
 		if h5 {
 			rep.Violate("C14/totp/lockout-reset-by-relogin", "after 5 failed guesses, each followed by logout and login, the correct code was honoured: the failure count does not survive a re-login",
 				map[string]interface{}{"user": u.name, "failures_recorded": fc, "limiter_entry_known": known, "status": code5})
+		}
+	}()
+	// slow guessing: four evaluated failures, then 31 s of real time - the daemon's periodic state clean-up (every
+	// 30 s) runs at least once - then the fifth failure: the failures before the pause still count, the correct code
+	// is locked out
+	wg.Add(1)
+	go func() {
+		defer wg.Done()
+		u := mk("slow1")
+		if u == nil {
+			return
+		}
+		for i := 0; i < 4; i++ {
+			env.ShiftTOTPLimiter(u.name, 2100*time.Millisecond)
+			try(u, wrong(u))
+		}
+		_, fcBefore, _ := env.TOTPLimiter(u.name)
+		time.Sleep(31 * time.Second)
+		_, fcAfter, known := env.TOTPLimiter(u.name)
+		try(u, wrong(u))
+		env.ShiftTOTPLimiter(u.name, 2100*time.Millisecond)
+		h, _, _, code := try(u, verifTOTPCode(u.secret, time.Now()))
+		rep.Eval(fmt.Sprintf("totp|lockout-across-state-cleanup|honoured=%v", h))
+		rep.Count("totp_slow_guessing_checked", 1)
+		if h {
+			rep.Violate("C14/totp/failures-forgotten-across-idle-period", "after 4 failed guesses, a 31-s pause and a 5th failed guess the correct code was honoured: the failures recorded before the pause no longer count",
+				map[string]interface{}{"user": u.name, "failures_recorded_before_pause": fcBefore, "failures_recorded_after_pause": fcAfter, "limiter_entry_known_after_pause": known, "status": code})
 		}
 	}()
 	// lock-out: 5 evaluated failures, then the correct code
